@@ -34,6 +34,8 @@ func genEsSink(r *rng, n int, tier string, emit func(string)) {
 		"cfg 10 2 1 5000 shutdown ; d 1 o ; d 2 o ; d 3 o",
 		"cfg 2 2 1 5000 shutdown ; d 1 o ; d 2 r ; d 3 o ; d 4 o ; d 5 o",
 		"cfg 3 1 1 20 late:0 ; d 1 o ; d 2 o ; d 3 o",
+		// a refused bulk request (5 s back-off) must not use up the per-document retry budget
+		"cfg 2 1 1 20 whole:0 ; d 1 o ; d 2 ro ; d 3 m",
 	} {
 		emit(c)
 	}
